@@ -59,6 +59,7 @@ func runC01(w *World, r *Report, tier string) {
 		}
 	}
 	ruleWrapper(w, r, wrapperSpec{Wrapper: "shape.GetSpatialIdsOnPoints", Extended: "shape.GetExtendedSpatialIdsOnPoints", ZoomArg: 1, ExtH: 1, ExtV: 2, IDsArg: -1, PassArgs: [][2]int{{0, 0}}})
+	ruleElementwise(w, r, "shape.GetExtendedSpatialIdsOnPoints", 0)
 	guardRows(w, r, "C01")
 }
 
@@ -84,6 +85,9 @@ func runC03(w *World, r *Report, tier string) {
 	}
 	ruleWrapper(w, r, wrapperSpec{Wrapper: "integrate.ChangeSpatialIdsZoom", Extended: "integrate.ChangeExtendedSpatialIdsZoom", ZoomArg: 1, ExtH: 1, ExtV: 2, IDsArg: 0})
 	ruleAxisSym(w, r, "integrate.HorizontalZoomMinMax")
+	for _, n := range []string{"integrate.HorizontalZoomMinMax", "integrate.HorizontalZoom", "integrate.VerticalZoom"} {
+		ruleNoClamp(w, r, n)
+	}
 	guardRows(w, r, "C03")
 }
 
